@@ -792,6 +792,75 @@ def G13_size_bound_agreement(repo, clause, scope=ALL_LIB):
     return obs
 
 
+def _view_base(e):
+    """The object whose storage a numpy expression (possibly) shares: strips view-producing wrappers - np.asarray / asanyarray / ravel / reshape / view / transpose /
+    squeeze / .T / basic slicing (slices, integers, None, Ellipsis) - and returns the remaining expression, or None when a copy is certainly made on the way."""
+    while True:
+        if isinstance(e, ast.Call):
+            nm = call_name(e)
+            if nm in ("asarray", "asanyarray", "atleast_1d", "atleast_2d") and e.args:
+                e = e.args[0]
+                continue
+            if isinstance(e.func, ast.Attribute) and nm in ("reshape", "ravel", "view", "transpose", "squeeze", "swapaxes"):
+                e = e.func.value if not (isinstance(e.func.value, ast.Name) and e.func.value.id in ("np", "numpy")) else (e.args[0] if e.args else None)
+                if e is None:
+                    return None
+                continue
+            return None
+        if isinstance(e, ast.Attribute) and e.attr == "T":
+            e = e.value
+            continue
+        if isinstance(e, ast.Subscript):
+            idx = e.slice.elts if isinstance(e.slice, ast.Tuple) else [e.slice]
+            basic = all(isinstance(i, ast.Slice) or (isinstance(i, ast.Constant) and (isinstance(i.value, int) or i.value is None or i.value is Ellipsis))
+                        or (isinstance(i, ast.UnaryOp) and isinstance(i.operand, ast.Constant)) for i in idx)
+            if not basic:
+                return None      # fancy indexing copies
+            e = e.value
+            continue
+        return e
+
+
+def G14_view_mutation(repo, clause, scope=ALL_LIB):
+    """np.asarray, reshape and basic slicing return VIEWS: an in-place operation on such a local (`v.sort()`, `v += ..`, `v[..] = ..`) rewrites the array of the
+    object it was taken from.  When that object is an argument of the function (not self), a helper computation silently reorders / changes the caller's data."""
+    obs = []
+    fns = _scope_fns(repo, scope)
+    n = 0
+    for fn in fns:
+        params = set(fn.params) - {"self", "cls"}
+        for a in [x for x in fn.own_nodes() if isinstance(x, ast.Assign) and len(x.targets) == 1 and isinstance(x.targets[0], ast.Name)]:
+            v = a.targets[0].id
+            base = _view_base(a.value)
+            if base is None or base is a.value:
+                continue
+            if not (isinstance(base, ast.Attribute) and isinstance(base.value, ast.Name) and base.value.id in params):
+                continue
+            if sum(1 for d in fn.own_nodes() if isinstance(d, ast.Assign) and any(isinstance(t, ast.Name) and t.id == v for t in d.targets)) != 1:
+                continue
+            muts = []
+            for x in fn.own_nodes():
+                if isinstance(x, ast.Call) and isinstance(x.func, ast.Attribute) and isinstance(x.func.value, ast.Name) and x.func.value.id == v \
+                        and x.func.attr in ("sort", "partition", "fill", "put", "itemset", "resize"):
+                    muts.append(x)
+                elif isinstance(x, ast.AugAssign) and isinstance(x.target, ast.Name) and x.target.id == v:
+                    muts.append(x)
+                elif isinstance(x, (ast.Assign, ast.AugAssign)):
+                    for t in (x.targets if isinstance(x, ast.Assign) else [x.target]):
+                        if isinstance(t, ast.Subscript) and isinstance(t.value, ast.Name) and t.value.id == v:
+                            muts.append(x)
+            n += 1
+            obs.append(Ob("G14", clause, fn, muts[0] if muts else a, not muts,
+                          "`%s = %s` in %s is a VIEW of %s: %s" % (v, ast.unparse(a.value)[:50], fn.qualname, ast.unparse(base),
+                                                                    "it is only read" if not muts else
+                                                                    "`%s` works in place and rewrites the rows of the caller's %s (the helper computation changes the data it was derived from)" % (
+                                                                        ast.unparse(muts[0])[:40], ast.unparse(base))),
+                          slot="view-mutation:%s:%s" % (fn.qualname, v), positive="robust" if muts else False))
+    obs.append(Ob("G14", clause, fns[0], fns[0].node, True, "%d functions in scope, %d locals that are views of an argument's array inspected" % (len(fns), n),
+                  construct="view mutation inventory", slot="inventory"))
+    return obs
+
+
 def G10_defined_before_use(repo, clause, scope=ALL_LIB):
     """A local name is read only where at least one of its assignments can reach (reaching definitions over the statement CFG).  A read that NO
     assignment reaches - typically after two statements were exchanged or a line was moved above the one that defines its input - raises
